@@ -35,15 +35,19 @@ def gen_pipeline_trace(rng, ttl, step):
     w = dbgen.World(rng, nhosts=rng.randint(4, 6), nshards=rng.randint(1, 2))
     ops = w.shard_ops() + dbgen.ticks(1)
 
+    leader = {}            # shard -> replica that claims leadership in its reports (nobody else ever does)
+    foreign = {}           # addr -> shard ids in its ShardIdList that the view does not know (unmanaged shards, replicas not yet in any membership)
+
     def full(a, drop=()):
         infos, ids = [], []
         for s, h in sorted(w.hist.items()):
             v, m = h[-1]
             for rid, ad in sorted(m.items()):
                 if ad == a and s not in drop:
-                    infos.append(dict(shard=s, replica=rid, leader=False, cci=v, incomplete=False, pending=False, members=sorted(m.items())))
+                    infos.append(dict(shard=s, replica=rid, leader=leader.get(s) == rid, cci=v, incomplete=False, pending=False, members=sorted(m.items())))
                     ids.append(s)
-        return dict(addr=a, rpc=w.rpc[a], region=w.region[a], plog_incl=rng.random() < 0.5, plog=[], shard_ids=ids, infos=infos)
+        return dict(addr=a, rpc=w.rpc[a], region=w.region[a], plog_incl=rng.random() < 0.5, plog=[], shard_ids=ids + (foreign.get(a, []) if drop else []),
+                    infos=infos)
     order = list(w.hosts)
     rng.shuffle(order)
     for a in order:
@@ -51,6 +55,17 @@ def gen_pipeline_trace(rng, ttl, step):
     ops.append(("LC",))
     s = rng.choice(sorted(w.hist))
     victim = rng.choice(sorted(w.hist[s][-1][1].values()))          # address of a member of shard s
+    if rng.random() < 0.6:
+        # the member that is going to fail is the one flagged leader: once it is no longer reported (its NodeHost keeps reporting)
+        # nobody clears the flag - a change must still be addressed to a NodeHost that runs a HEALTHY member
+        leader[s] = [rid for rid, ad in w.hist[s][-1][1].items() if ad == victim][0] if rng.random() < 0.8 else rng.choice(sorted(w.hist[s][-1][1]))
+        ops.append(("R", full(w.hist[s][-1][1][leader[s]])))       # the claim reaches the Drummer while that member is still running
+        ops.append(("LC",))
+    if rng.random() < 0.6:
+        # when the victim's NodeHost stops listing shard s its ShardIdList names shards the view does not know instead: as many as /
+        # more than / fewer than the shards the Drummer manages - "hosts a replica of s" still follows from the view
+        nf = max(0, len(w.hist) + rng.choice([-1, 0, 0, 1, 3]) - sum(1 for s2, h in w.hist.items() if s2 != s and victim in h[-1][1].values()))
+        foreign[victim] = [rng.choice([900, 7 + 100000, 5 + (1 << 32)]) + i for i in range(nf)]
     lagging = rng.random() < 0.4
     if lagging:
         # instead of dropping the shard, the victim's replica keeps being REPORTED by its (live) NodeHost for longer than the timeout,
@@ -116,8 +131,13 @@ def db_json_to_ctx(raw, rng, tag):
     kill = [(int(k.get("ShardID") or 0), int(k.get("ReplicaID") or 0), sid("a", k.get("Address"))) for k in (si.get("ReplicasToKill") or [])]
     if any(d[1] in (0, dbengine.UNK) for d in defs) or not view:
         return None
-    return dict(tick=int(c.get("Tick") or 0), defs=defs, view=view, hosts=hosts, kill=kill,
-                ints=[rng.randrange(0, 1 << 30) for _ in range(4)], u64s=[70000 + rng.randrange(100000) for _ in range(3)], json=1, tag=tag)
+    leaders = [(int(k), int(rk)) for k, sh in sorted((si.get("Shards") or {}).items(), key=lambda kv: int(kv[0]))
+               for rk, r in sorted((sh.get("Replicas") or {}).items(), key=lambda kv: int(kv[0])) if r.get("IsLeader")]
+    out = dict(tick=int(c.get("Tick") or 0), defs=defs, view=view, hosts=hosts, kill=kill,
+               ints=[rng.randrange(0, 1 << 30) for _ in range(4)], u64s=[70000 + rng.randrange(100000) for _ in range(3)], json=1, tag=tag)
+    if leaders:
+        out["leaders"] = leaders
+    return out
 
 
 def pipeline_contexts(ck, ntraces, ttl, step):
@@ -130,6 +150,16 @@ def pipeline_contexts(ck, ntraces, ttl, step):
     if res is None:
         return None
     out, seen = [], set()
+    import c05
+    nb = 0
+    for ti, ops in enumerate(traces):
+        # DB side of "onto a NodeHost that hosts no replica of that shard": the hosted-shards set of every NodeHost record = the shard list of
+        # its own last report (whatever ids it names) + every shard whose view has a member at that address
+        bad = c05.mon_hosts_c05(ops, res[ti]["obs"].get("A", {}), deng)
+        if bad and nb < 3:
+            nb += 1
+            oi, msg = bad[0]
+            ck.violation(msg, {"kind": "monitor:mon_hosts", "engine": "db", "ops": dbengine.trace_to_json(ops[:oi + 1]), "failing_op_index": oi})
     for ti, ops in enumerate(traces):
         tick, last = 0, {}
         for oi, op in enumerate(ops):
@@ -241,6 +271,14 @@ def run(ck):
                     if t is not None and t > 0 and now - t <= eng.ttl:
                         bad.append(("C02_delete_justified", "DELETE of replica %d of shard %d which its NodeHost reported %d <= ttl ago (at logical time %d, now %d)" % (
                             q["members"][0], q["shard"], now - t, t, now)))
+                if q["type"] in (se.ADD, se.DELETE):
+                    s = v.shards.get(q["shard"])
+                    if s is not None:
+                        ok_at = sorted(r[1] for r in s["reps"] if (hl.get("%d:%d" % (s["id"], r[0])) or 0) > 0 and now - hl["%d:%d" % (s["id"], r[0])] <= eng.ttl)
+                        if q["raft"] not in ok_at:
+                            bad.append(("C02_fenced", "%s for shard %d sent to NodeHost a%d; by the report history the members reported within the timeout run on %s "
+                                        "(leader flags in the view: %s)" % ("ADD" if q["type"] == se.ADD else "DELETE", s["id"], q["raft"], ["a%d" % a for a in ok_at],
+                                                                            [l for l in c.get("leaders", []) if l[0] == s["id"]])))
                 if q["type"] == se.ADD:
                     s = v.shards.get(q["shard"])
                     if s is not None and all((hl.get("%d:%d" % (s["id"], r[0])) or 0) > 0 and now - hl["%d:%d" % (s["id"], r[0])] <= eng.ttl for r in s["reps"]):
